@@ -483,6 +483,126 @@ def late_sweep(s):
 SCRIPTS["late-sweep"] = late_sweep
 
 
+def stale_ns(s):
+    """C03 C02 C11 C12 (the shape of defect D5 and of every 'drop idle in-memory objects' change): after a restart
+    on a database that still has rows of the app, a connection binds and then sits through sweeps (at which its
+    app has nothing live in memory); only then does it allocate / claim / open, idles again until its nameplate
+    is retired by expiry, and finally meets a second connection of the same app on the same name and mailbox"""
+    r = s.rng
+    app = r.choice(["a1", "a2"])
+    P, E = s.w.PERIOD, s.w.EXP
+    pre = Client(s, app, "s3")
+    pre.cmd({"type": "claim", "nameplate": "9"})
+    if r.random() < 0.5:
+        pre.cmd({"type": "open", "mailbox": "mold"})
+        pre.cmd({"type": "add", "phase": "p", "body": "00"})
+    s.emit({"k": "restart"})
+    s.cinfo.clear()
+    c1 = Client(s, app, "s1")
+    for k in range(r.choice([1, 2])):
+        _adv(s, P)
+    use_alloc = r.random() < 0.6
+    name = None
+    if use_alloc:
+        o = c1.cmd({"type": "allocate"})
+        for e in o["log"]:
+            if e[0] == "F" and e[3] == "allocated" and isinstance(e[4], str):
+                name = bytes.fromhex(e[4]).decode("utf-8")
+    if name is None:
+        name = r.choice(["1", "4"])
+        c1b = Client(s, app, "s1")
+        c1b.cmd({"type": "claim", "nameplate": name})
+        c1b.drop()
+    # idle until the nameplate (and its mailbox) has expired
+    for k in range(E // P + 2):
+        _adv(s, P)
+    c1.cmd({"type": "list"})
+    c2 = Client(s, app, "s2")
+    o = c2.cmd({"type": "claim", "nameplate": name})
+    mbox = None
+    for e in o["log"]:
+        if e[0] == "F" and e[3] == "claimed" and isinstance(e[4], str):
+            mbox = bytes.fromhex(e[4]).decode("utf-8")
+    c1.cmd({"type": "claim", "nameplate": name})           # must be told the same (new) mailbox
+    if mbox is not None:
+        c1.cmd({"type": "open", "mailbox": mbox})
+        c2.cmd({"type": "open", "mailbox": mbox})
+        c1.cmd({"type": "add", "phase": "pake", "body": "01"})
+        c2.cmd({"type": "add", "phase": "pake", "body": "02"})
+    c2.cmd({"type": "list"})
+    _adv(s, P)
+    c1.cmd({"type": "add", "phase": "p", "body": "03"})
+    if r.random() < 0.5:
+        c1.cmd({"type": "release"})
+        c2.cmd({"type": "release"})
+        c1.cmd({"type": "close", "mood": "happy"})
+        c2.cmd({"type": "close", "mood": "happy"})
+
+
+SCRIPTS["stale-ns"] = stale_ns
+
+
+def crowd_retry(s):
+    """C05 (C07 C08): two sides share a nameplate / mailbox; a third side is refused; then the first two reconnect
+    and re-send their claim / open / close (answered `crowded` once a third side's row exists: known finding KF2),
+    in every combination and order, and the third side (and a fourth) keeps retrying through every door --
+    claim, open, close by name -- on fresh connections: it must be refused every time"""
+    r = s.rng
+    app = r.choice(["a1", "a2"])
+    name = r.choice(["1", "7"])
+    A = Client(s, app, "s1")
+    B = Client(s, app, "s2")
+    o = A.cmd({"type": "claim", "nameplate": name})
+    mbox = "m1"
+    for e in o["log"]:
+        if e[0] == "F" and e[3] == "claimed" and isinstance(e[4], str):
+            mbox = bytes.fromhex(e[4]).decode("utf-8")
+    B.cmd({"type": "claim", "nameplate": name})
+    A.cmd({"type": "open", "mailbox": mbox})
+    B.cmd({"type": "open", "mailbox": mbox})
+    A.cmd({"type": "add", "phase": "pake", "body": "aa01"})
+    B.cmd({"type": "add", "phase": "pake", "body": "bb02"})
+    if r.random() < 0.3:
+        B.cmd({"type": "release"})
+    if r.random() < 0.3:
+        B.cmd({"type": "close", "mood": "happy"})
+    if r.random() < 0.4:
+        B.drop()
+
+    def intruder(side):
+        c = Client(s, app, side)
+        doors = [{"type": "claim", "nameplate": name}, {"type": "open", "mailbox": mbox},
+                 {"type": "close", "mailbox": mbox, "mood": "happy"}]
+        r.shuffle(doors)
+        for d in doors[:r.choice([1, 2, 3])]:
+            c.cmd(d)
+        if r.random() < 0.3:
+            c.cmd({"type": "add", "phase": "x", "body": "ee"})
+        if r.random() < 0.6:
+            c.drop()
+
+    intruder("s3")
+    for _round in range(r.choice([1, 2, 3])):
+        # one of the first two comes back on a fresh connection and re-sends
+        back = Client(s, app, r.choice(["s1", "s2"]))
+        cmds = [{"type": "claim", "nameplate": name}, {"type": "open", "mailbox": mbox}]
+        if r.random() < 0.3:
+            cmds.append({"type": "close", "mailbox": mbox, "mood": "lonely"})
+        if r.random() < 0.5:
+            r.shuffle(cmds)
+        for d in cmds[:r.choice([1, 2, 2, 3])]:
+            back.cmd(d)
+        if r.random() < 0.5:
+            back.drop()
+        pause(s)
+        intruder(r.choice(["s3", "s3", "s4"]))
+    A.cmd({"type": "add", "phase": "p", "body": "aa03"})
+    intruder("s4")
+
+
+SCRIPTS["crowd-retry"] = crowd_retry
+
+
 def run(name, session):
     SCRIPTS[name](session)
 
